@@ -342,19 +342,92 @@ Proof. exact prior_kind_not_mat. Qed.
 Print Assumptions c04_prior_kind_never_npmatrix.
 
 (* ---- eq_probs as written guards the eigen-solver: for sparse T the vector is handed on only if
-        |pi T - pi| <= 1e-8 entry-wise, otherwise the dense solver is asked (repo fix fba1408) *)
+        |pi T - pi| <= 1e-8 entry-wise, otherwise the dense solver is asked (repo fix fba1408); the solver's
+        answers are a vector, ArpackNoConvergence (sparse T only) or any other failure (Base/BuildersBase.v) *)
 Theorem c04_eq_probs_guard : forall eig T pi,
   gen_eq_probs eig T = Ok pi ->
+  (is_sparse T = false /\ eig T = EigVec pi) \/
+  (is_sparse T = true /\ eig T = EigVec pi /\ v_allclose2 atol8 (v_matmul pi T) pi = true) \/
+  (is_sparse T = true /\ eig (a_toarray T) = EigVec pi).
+Proof. exact gen_eq_probs_guard. Qed.
+Print Assumptions c04_eq_probs_guard.
+
+(* the same, literally as stated before the ArpackNoConvergence handler existed (a solver that answers
+   with a vector or fails) *)
+Theorem c04_eq_probs_guard_total : forall (eig : arr -> option (list Q)) T pi,
+  gen_eq_probs (fun A => ans_of_opt (eig A)) T = Ok pi ->
   (is_sparse T = false /\ eig T = Some pi) \/
   (is_sparse T = true /\ eig T = Some pi /\ v_allclose2 atol8 (v_matmul pi T) pi = true) \/
   (is_sparse T = true /\ eig (a_toarray T) = Some pi).
-Proof. exact gen_eq_probs_guard. Qed.
-Print Assumptions c04_eq_probs_guard.
+Proof. exact gen_eq_probs_guard_total. Qed.
+Print Assumptions c04_eq_probs_guard_total.
+
+(* ---- eq_probs as written, case by case (repo fix: try / except scipy.sparse.linalg.ArpackNoConvergence
+        around the first eigenspectrum call).  Sparse T: ARPACK's vector if it passes the test; the dense
+        solver's answer on T.toarray() if ARPACK's vector fails the test OR ARPACK gave up; every other
+        failure of the solver is raised.  Dense T: the solver's answer -- no handler, no guard *)
+Theorem c04_eq_probs_spec : forall eig T,
+  gen_eq_probs eig T =
+  if is_sparse T then
+    match eig T with
+    | EigVec v => if v_allclose2 atol8 (v_matmul v T) v then Ok v else dense_ans eig T
+    | EigNoConv => dense_ans eig T
+    | EigFail => Err
+    end
+  else match eig T with EigVec v => Ok v | _ => Err end.
+Proof. exact gen_eq_probs_spec. Qed.
+Print Assumptions c04_eq_probs_spec.
+
+Theorem c04_eq_probs_noconv_falls_back : forall eig T,
+  is_sparse T = true -> eig T = EigNoConv -> gen_eq_probs eig T = dense_ans eig T.
+Proof. exact gen_eq_probs_noconv. Qed.
+Print Assumptions c04_eq_probs_noconv_falls_back.
+
+Theorem c04_eq_probs_nonstationary_falls_back : forall eig T v,
+  is_sparse T = true -> eig T = EigVec v -> v_allclose2 atol8 (v_matmul v T) v = false ->
+  gen_eq_probs eig T = dense_ans eig T.
+Proof. exact gen_eq_probs_nonstationary. Qed.
+Print Assumptions c04_eq_probs_nonstationary_falls_back.
+
+Theorem c04_eq_probs_dense_unchanged : forall eig T,
+  is_sparse T = false -> gen_eq_probs eig T = match eig T with EigVec v => Ok v | _ => Err end.
+Proof. exact gen_eq_probs_dense. Qed.
+Print Assumptions c04_eq_probs_dense_unchanged.
+
+(* the handler catches ArpackNoConvergence only *)
+Theorem c04_eq_probs_other_failures_raised : forall eig T, eig T = EigFail -> gen_eq_probs eig T = Err.
+Proof. exact gen_eq_probs_fail. Qed.
+Print Assumptions c04_eq_probs_other_failures_raised.
+
+(* ---- ArpackNoConvergence never leaves eq_probs, nor normalize; populations are returned for a sparse T
+        whenever the dense solver has an answer and ARPACK answers or gives up *)
+Theorem c04_eq_probs_never_noconv : forall eig T, gen_eq_probs eig T <> NoConv.
+Proof. exact gen_eq_probs_never_noconv. Qed.
+Print Assumptions c04_eq_probs_never_noconv.
+
+Theorem c04_eq_probs_returns : forall eig T w,
+  is_sparse T = true -> eig (a_toarray T) = EigVec w -> eig T <> EigFail ->
+  exists pi, gen_eq_probs eig T = Ok pi.
+Proof. exact gen_eq_probs_returns. Qed.
+Print Assumptions c04_eq_probs_returns.
+
+Theorem c04_gen_normalize_never_noconv : forall eig C p eq, gen_normalize (gen_eq_probs eig) C p eq <> NoConv.
+Proof. exact gen_normalize_never_noconv. Qed.
+Print Assumptions c04_gen_normalize_never_noconv.
+
+Theorem c04_gen_normalize_returns : forall eig C p C1 w,
+  is_square (a_val C) = true -> a_kind C <> KMat ->
+  apply_prior (a_val C) p = Some C1 ->
+  let T := mkarr (rownorm_kind (prior_kind (a_kind C) p)) (row_normalize C1) in
+  eig (a_toarray T) = EigVec w -> eig T <> EigFail ->
+  exists pi, gen_normalize (gen_eq_probs eig) C p true = Ok (mkarr (prior_kind (a_kind C) p) C1, T, Some pi).
+Proof. exact gen_normalize_returns. Qed.
+Print Assumptions c04_gen_normalize_returns.
 
 (* ---- hence: if the dense solver returns stationary probability vectors, eq_probs' answer is stationary
         to 1e-8 per entry WHATEVER the sparse solver (ARPACK) returned *)
 Theorem c04_eq_probs_sound_whatever_arpack : forall eig T pi,
-  (forall D v, is_sparse D = false -> eig D = Some v -> is_stationary_b (a_val D) v = true) ->
+  (forall D v, is_sparse D = false -> eig D = EigVec v -> is_stationary_b (a_val D) v = true) ->
   gen_eq_probs eig T = Ok pi ->
   v_allclose2 atol8 (v_matmul pi T) pi = true.
 Proof. exact gen_eq_probs_sound. Qed.
@@ -376,7 +449,7 @@ Print Assumptions c04_gen_transpose_reversible.
 (* ---- normalize as written, eigen-solvers abstract: the returned populations satisfy
         |pi T - pi| <= 1e-8 entry-wise whatever ARPACK returned, if the dense solver's vectors are stationary *)
 Theorem c04_gen_normalize_pi_sound : forall eig C p C' T pi,
-  (forall D v, is_sparse D = false -> eig D = Some v -> is_stationary_b (a_val D) v = true) ->
+  (forall D v, is_sparse D = false -> eig D = EigVec v -> is_stationary_b (a_val D) v = true) ->
   gen_normalize (gen_eq_probs eig) C p true = Ok (C', T, Some pi) ->
   v_allclose2 atol8 (v_matmul pi T) pi = true.
 Proof. exact gen_normalize_pi_sound. Qed.
@@ -397,3 +470,15 @@ Example c04_example_gen_kinds :
   is_square [[10; 3; 3]; [3; 8; 1]; [3; 1; 12]] = true /\ rows_positive [[10; 3; 3]; [3; 8; 1]; [3; 1; 12]] = true.
 Proof. vm_compute. repeat split; reflexivity. Qed.
 Print Assumptions c04_example_gen_kinds.
+
+(* Non-vacuity of the ArpackNoConvergence clause: a solver that gives up on every sparse matrix and is
+   exact on dense ones; normalize on a csr_matrix then returns the exact stationary vector (6/17, 35/68, 9/68) *)
+Definition giving_up_eig (T : arr) : eig_ans := if is_sparse T then EigNoConv else exact_eig T.
+Example c04_example_noconv :
+  exists C' T pi,
+    gen_normalize (gen_eq_probs giving_up_eig) (mkarr (KSp false Csr) [[5; 2; 1]; [1; 4; 0]; [2; 1; 6]]) NoPrior true
+      = Ok (C', T, Some pi) /\
+    a_kind T = KSp false Csr /\ giving_up_eig T = EigNoConv /\
+    is_stationary_b (a_val T) pi = true.
+Proof. eexists _, _, _. split; [vm_compute; reflexivity|]. vm_compute. repeat split; reflexivity. Qed.
+Print Assumptions c04_example_noconv.
